@@ -535,9 +535,13 @@ fn storage_fragment(a: &mut Asm, r: &mut Rng, s: U256, slots: &[U256]) {
             a.push_u(1).op(op::AND);
             typed_value(a, r);
             a.dup(1).push(*r.pick(slots)).op(op::SSTORE);
-            a.push_u(0x7f).op(op::AND).push_u(1).op(op::SHL).op(op::OR);
-            typed_value(a, r);
-            a.push(mask(248)).op(op::AND).push_u(8).op(op::SHL).op(op::OR);
+            // (fields are moved into place by multiplication: that is the
+            // form the library lifts into a packed encoding)
+            a.push_u(0x7f).op(op::AND).push_u(2).op(op::MUL).op(op::OR);
+            if r.chance(1, 2) {
+                typed_value(a, r);
+                a.push(mask(248)).op(op::AND).push_u(256).op(op::MUL).op(op::OR);
+            }
             a.push(s).op(op::SSTORE);
             a.push(s);
             array_hash(a, r, None);
@@ -694,8 +698,9 @@ fn storage_fragment(a: &mut Asm, r: &mut Rng, s: U256, slots: &[U256]) {
             typed_value(a, r);
             a.push(mask(w)).op(op::AND);
             if k > 0 {
-                if r.chance(1, 3) {
-                    // multiply by a power of two instead of shifting
+                if r.chance(1, 2) {
+                    // multiply by a power of two instead of shifting (the
+                    // form the library lifts into a packed encoding)
                     a.push(U256::ONE << k).op(op::MUL);
                 } else {
                     a.push_u(u128::from(k)).op(op::SHL);
@@ -1132,7 +1137,7 @@ pub fn gen_copy(r: &mut Rng) -> Vec<u8> {
     let n = 1 + r.usize_below(4);
     for _ in 0..n {
         let size = 32 * r.range(1, 40) as u128 + if r.chance(1, 4) { r.below(32) as u128 } else { 0 };
-        match r.below(7) {
+        match r.below(8) {
             0 => {
                 a.push_u(size).push_u(r.below(64) as u128).push_u(r.below(256) as u128).op(op::CALLDATACOPY);
             }
@@ -1149,6 +1154,17 @@ pub fn gen_copy(r: &mut Rng) -> Vec<u8> {
                 };
                 a.push_u(size).push(off).push_u(r.below(256) as u128);
                 a.op(op::CALLER).op(op::EXTCODECOPY);
+            }
+            7 => {
+                // as below, but the path that runs first is the short one: it
+                // fails at the copy instruction before the complete one gets
+                // there
+                let l = a.new_label();
+                a.push_u(size).push_u(r.below(64) as u128).push_u(r.below(256) as u128);
+                a.op(op::CALLDATASIZE).jumpi_to(l);
+                a.op(op::POP);
+                a.place(l);
+                a.op(*r.pick(&[op::CALLDATACOPY, op::CODECOPY, op::RETURNDATACOPY]));
             }
             6 => {
                 // two paths reach the same copy instruction, one of them one
